@@ -5,6 +5,7 @@ mod cat_lens;
 mod grp_lens;
 mod jrn_lens;
 mod log_lens;
+mod mt_lens;
 mod perm_lens;
 mod srv;
 mod topic_lens;
@@ -92,6 +93,10 @@ fn main() {
         "wire" => {
             let l = wire_lens::WireLens::new(&work);
             each_scenario::<wire_lens::Scenario>(&input, &mut tool_errors, |n, s| l.run_scenario(n, s, &mut out))
+        }
+        "mt" => {
+            let l = mt_lens::MtLens::new(&work);
+            each_scenario::<mt_lens::Scenario>(&input, &mut tool_errors, |n, s| l.run_scenario(n, s, &mut out))
         }
         "grp" => {
             let l = grp_lens::GrpLens::new(&work);
